@@ -39,7 +39,18 @@ def _callees(p: Program, fi: FuncInfo) -> List[FuncInfo]:
 
 
 def _mentions(fi: FuncInfo, text: str) -> bool:
-    return any(isinstance(n, ast.Constant) and n.value == text for n in ast.walk(fi.node))
+    if any(isinstance(n, ast.Constant) and n.value == text for n in ast.walk(fi.node)):
+        return True
+    # through a class-level or module-level name the function uses (a getter object, a constant)
+    for n in ast.walk(fi.node):
+        raw = None
+        if isinstance(n, ast.Attribute) and isinstance(n.value, ast.Name) and n.value.id in ("self", "cls") and fi.owner is not None:
+            raw = fi.owner.attrs.get(n.attr)
+        elif isinstance(n, ast.Name) and isinstance(n.ctx, ast.Load):
+            raw = fi.module.assigns.get(n.id)
+        if isinstance(raw, ast.AST) and any(isinstance(x, ast.Constant) and x.value == text for x in ast.walk(raw)):
+            return True
+    return False
 
 
 def touches_citation(p: Program, fi: FuncInfo, depth: int = 2) -> bool:
@@ -79,9 +90,16 @@ def citation_regex(p: Program, deref: FuncInfo) -> Optional[str]:
     nodes = list(ast.walk(deref.node))
     for g in _callees(p, deref):
         nodes += list(ast.walk(g.node))
+    local = {}
     for n in nodes:
-        if isinstance(n, ast.Call) and isinstance(n.func, ast.Attribute) and n.func.attr in ("match", "fullmatch", "search"):
-            v = n.func.value
+        if isinstance(n, ast.Assign) and len(n.targets) == 1 and isinstance(n.targets[0], ast.Name):
+            local[n.targets[0].id] = n.value
+    for n in nodes:
+        # <pattern>.match(...) called, or handed on as a function (map(rx.match, ...))
+        if isinstance(n, ast.Attribute) and n.attr in ("match", "fullmatch", "search") and isinstance(n.ctx, ast.Load):
+            v = n.value
+            if isinstance(v, ast.Name) and isinstance(local.get(v.id), (ast.Attribute, ast.Name)):
+                v = local[v.id]
             if isinstance(v, ast.Attribute):
                 names.add(v.attr)
             elif isinstance(v, ast.Name):
